@@ -145,6 +145,25 @@ def observe (c : Codec Tok Val) (flag : Nat → Bool) (cv : Conv Val) (src : Src
     (q : Op Val H) : Out Tok Val H :=
   (step c flag cv src (o.loadData src) q).2
 
+/-- Does the operation need the hourly data (it starts with `if not self.is_data_loaded: self._import_data()`)?
+    Header reads and header-slot setters call `_load_header_check` only. -/
+def Op.needsData : Op Val H → Bool
+  | .header => false
+  | .set _ _ _ => false
+  | _ => true
+
+/-- The CLASS of change behind `C01_header_before_load_*`: `to_file_string` split in two so that the header part
+    (slots and leap field) is rendered after the header load only, BEFORE the step that loads the data and with it
+    settles the leap flag of a file whose header has none.  Not the code: the variant the theorems separate from it. -/
+def stepWriteHeaderFirst (c : Codec Tok Val) (flag : Nat → Bool) (cv : Conv Val) (src : Src Val H) (o : Obj Val H) :
+    Obj Val H × Out Tok Val H :=
+  let oh := o.loadHeader src
+  let ol := o.loadData src
+  let r := ol.st.toFileString c flag cv
+  ({ ol with st := r.2 }, match r.1 with
+    | .ok rows => .text oh.slots oh.st.leap rows
+    | .error e => .err e)
+
 /-- A fresh lazy object (`EPW(path)`). -/
 def Obj.lazy (dflt : List H) : Obj Val H := ⟨⟨false, false, false, some false, 35, []⟩, dflt⟩
 
